@@ -28,6 +28,7 @@ package host
 
 //@ func (*Set).addToHealthy
 //@   prop C15 C06
+//@   alsoprop C18 : cache-describes-the-current-tier
 //@   requires set != nil && set.healthyMain != nil && set.healthyBackup != nil
 //@   requires @tier-values-non-nil (forall a string :: has(set.healthyMain, a) ==> set.healthyMain[a] != nil) && (forall a string :: has(set.healthyBackup, a) ==> set.healthyBackup[a] != nil)
 //@   requires @three-distinct-maps set.all != set.healthyMain && set.all != set.healthyBackup && set.healthyMain != set.healthyBackup
@@ -45,6 +46,7 @@ package host
 
 //@ func (*Set).removeFromHealthy
 //@   prop C15 C06
+//@   alsoprop C18 : cache-describes-the-current-tier
 //@   requires set != nil && set.healthyMain != nil && set.healthyBackup != nil
 //@   requires @tier-values-non-nil (forall a string :: has(set.healthyMain, a) ==> set.healthyMain[a] != nil) && (forall a string :: has(set.healthyBackup, a) ==> set.healthyBackup[a] != nil)
 //@   requires @three-distinct-maps set.all != set.healthyMain && set.all != set.healthyBackup && set.healthyMain != set.healthyBackup
@@ -62,6 +64,7 @@ package host
 
 //@ func (*Set).buildHealthyCache
 //@   prop C15 C06 C18
+//@   alsoprop C18 : cache-describes-the-current-tier
 //@   requires set != nil && set.healthyMain != nil && set.healthyBackup != nil
 //@   requires @tier-values-non-nil (forall a string :: has(set.healthyMain, a) ==> set.healthyMain[a] != nil) && (forall a string :: has(set.healthyBackup, a) ==> set.healthyBackup[a] != nil)
 //@   modifies aval
@@ -82,6 +85,7 @@ package host
 
 //@ func (*Set).remove
 //@   prop C15 C06
+//@   alsoprop C18 : cache-describes-the-current-tier
 //@   requires set != nil && set.all != nil && set.healthyMain != nil && set.healthyBackup != nil && forall k int :: 0 <= k && k < len(hosts) ==> hosts[k] != nil
 //@   requires @tier-values-non-nil (forall a string :: has(set.healthyMain, a) ==> set.healthyMain[a] != nil) && (forall a string :: has(set.healthyBackup, a) ==> set.healthyBackup[a] != nil)
 //@   requires @members-present-three-distinct-maps (forall a string :: has(set.all, a) ==> set.all[a] != nil) && set.all != set.healthyMain && set.all != set.healthyBackup && set.healthyMain != set.healthyBackup
@@ -154,6 +158,7 @@ package host
 
 //@ func (*Set).add
 //@   prop C15 C06
+//@   alsoprop C18 : cache-describes-the-current-tier
 //@   requires setok(set) && forall k int :: 0 <= k && k < len(hosts) ==> hosts[k] != nil
 //@   requires @one-host-per-address-in-a-call forall a int, b int :: 0 <= a && a < b && b < len(hosts) ==> hosts[a].Addr != hosts[b].Addr
 //@   modifies mapof(set.all), mapof(set.healthyMain), mapof(set.healthyBackup), aval
@@ -165,6 +170,7 @@ package host
 
 //@ func (*Set).ReplaceAll
 //@   prop C15 C06
+//@   alsoprop C18 : cache-describes-the-current-tier
 //@   requires setok(set) && cachefresh(set) && forall k int :: 0 <= k && k < len(hosts) ==> hosts[k] != nil
 //@   requires @one-host-per-address-in-a-call forall a int, b int :: 0 <= a && a < b && b < len(hosts) ==> hosts[a].Addr != hosts[b].Addr
 //@   modifies mapof(set.all), mapof(set.healthyMain), mapof(set.healthyBackup), aval, heap("#closed")
@@ -175,6 +181,7 @@ package host
 
 //@ func (*Set).Add
 //@   prop C15 C06
+//@   alsoprop C18 : cache-describes-the-current-tier
 //@   requires setok(set) && cachefresh(set) && forall k int :: 0 <= k && k < len(hosts) ==> hosts[k] != nil
 //@   requires @one-host-per-address-in-a-call forall a int, b int :: 0 <= a && a < b && b < len(hosts) ==> hosts[a].Addr != hosts[b].Addr
 //@   modifies mapof(set.all), mapof(set.healthyMain), mapof(set.healthyBackup), aval
@@ -184,6 +191,7 @@ package host
 
 //@ func (*Set).Remove
 //@   prop C15 C06
+//@   alsoprop C18 : cache-describes-the-current-tier
 //@   requires setok(set) && cachefresh(set) && forall k int :: 0 <= k && k < len(hosts) ==> hosts[k] != nil
 //@   modifies mapof(set.all), mapof(set.healthyMain), mapof(set.healthyBackup), aval, heap("#closed")
 //@   ensures @removed-hosts-leave-the-member-map forall k int :: 0 <= k && k < len(hosts) ==> !has(set.all, hosts[k].Addr)
@@ -192,6 +200,7 @@ package host
 
 //@ func (*Set).MarkHostHealthy
 //@   prop C15 C06
+//@   alsoprop C18 : cache-describes-the-current-tier
 //@   requires setok(set) && cachefresh(set) && host != nil && host.Stats != nil
 //@   modifies mapof(set.healthyMain), mapof(set.healthyBackup), aval, atomu64, atombool
 //@   ensures @usable-hosts-are-current-members old(tiersinall(set)) ==> tiersinall(set)
@@ -200,6 +209,7 @@ package host
 
 //@ func (*Set).MarkHostUnhealthy
 //@   prop C15 C06
+//@   alsoprop C18 : cache-describes-the-current-tier
 //@   requires setok(set) && cachefresh(set) && host != nil && host.Stats != nil
 //@   modifies mapof(set.healthyMain), mapof(set.healthyBackup), aval, atomu64, atombool
 //@   ensures @usable-hosts-are-current-members old(tiersinall(set)) ==> tiersinall(set)
